@@ -654,7 +654,15 @@ pub fn main(a: Args) -> i32 {
         // one history in three lives on names where byte order and path-component order disagree: siblings of the directory
         // `d/` whose names are `d` followed by a byte below '/' (`d-y`, `d.x` sort BEFORE `d/h` as strings, AFTER it as paths)
         let paths2 = ["d.x", "d-y", "d/h", "d/k"];
-        (0..n).map(|i| gen_history(&mut r, &pool, if i % 3 == 2 { &paths2 } else { &paths })).collect()
+        // and one in three on four paths drawn from the pool of hostile names (util::hostile_paths)
+        (0..n).map(|i| {
+            if i % 3 == 1 {
+                let hp = hostile_paths(&mut r, 4);
+                let hp: Vec<&str> = hp.iter().map(|x| x.as_str()).collect();
+                if hp.len() == 4 { return gen_history(&mut r, &pool, &hp); }
+            }
+            gen_history(&mut r, &pool, if i % 3 == 2 { &paths2 } else { &paths })
+        }).collect()
     };
     let mut nfail = 0u64;
     let mut distinct = std::collections::HashSet::new();
